@@ -96,7 +96,9 @@ class Run:
                    23: ("U1", None, None, 9, "ec_free", ""), "ec_t": ("U2", 0, 9, 3, "ec_text", ""),
                    # limits that are zero (a limit of 0 is a limit, not "no limit")
                    24: ("I2", -50, 0, -5, "ec_max0", ""), 25: ("I4", 0, 0, 0, "ec_zero", ""), 26: ("F4", -1.5, 0.0, -0.5, "ec_fmax0", ""),
-                   27: ("I2", 0, 40, 4, "ec_min0", "")}
+                   27: ("I2", 0, 40, 4, "ec_min0", ""),
+                   # only one limit declared
+                   29: ("I2", -5, None, 3, "ec_min_only", ""), 30: ("I4", None, 70, 7, "ec_max_only", ""), 31: ("I2", 0, None, 2, "ec_min0_only", "")}
         for k, (fmt, lo, hi, d, name, unit) in self.ec.items():
             h.equipment_constants[k] = EquipmentConstant(k, name, lo, hi, d, unit, getattr(V, fmt), use_callback=False)
         self.ecval = {k: v[3] for k, v in self.ec.items()}
